@@ -439,7 +439,8 @@ def c11(S1, details=None):
       msgs.append(('asymmetric', '%s.%s vs %s.%s: only forward %s | only backward %s' % (
           t, c, t2, c2, sorted(A - Bi)[:4], sorted(Bi - A)[:4])))
       if details is not None:
-        details.append({'pair': ((t, c), (t2, c2))})
+        details.append({'pair': ((t, c), (t2, c2)), 'only_forward': sorted(A - Bi), 'only_backward': sorted(Bi - A),
+                        'bases': (ba, bb)})
   return msgs, n
 
 
@@ -528,6 +529,12 @@ def c12(S1, stats=None):
     if any(opaque(srows[r][sc]) for r in srows for (gc, sc, typ) in gcols) or \
        any(opaque(strows[r][gc]) for r in strows for (gc, sc, typ) in gcols):
       skip('opaque_value_in_groupby_cell')
+      continue
+    # A list held by a column that is not of a list type (possible in Any columns): the statement defines
+    # list-valued cells for Choice List / Reference List group-bys only.
+    if any(isinstance(srows[r][sc], list) for r in srows for (gc, sc, typ) in gcols
+           if not (typ == 'ChoiceList' or typ.startswith('RefList:'))):
+      skip('list_in_scalar_groupby_column')
       continue
     named_like_option = any(gc in LOOKUP_OPTION_NAMES or sc in LOOKUP_OPTION_NAMES for (gc, sc, typ) in gcols)
     for (gc, sc, typ) in gcols:
